@@ -7,6 +7,7 @@ import FeatModel.Lemmas.C11RoundTrip2
 import FeatModel.Lemmas.C11Ini
 import FeatModel.Lemmas.C11Sound2
 import FeatModel.Lemmas.C11Strict
+import FeatModel.Lemmas.C11Bezier
 import FeatModel.Lemmas.C11Charts
 import FeatModel.Lemmas.C11XmlGrammar
 import FeatModel.Lemmas.C11ChartCtor
@@ -24,8 +25,9 @@ parser can return, and the byte-for-byte clause), `parse ∘ print = id` for exp
 dump/parse for trees of any depth with admissible keys/values, the number and markup layers' print/read round trips,
 graph (de)serialisation round trip and byte-for-byte idempotence for every graph, and the strictness of the number
 layer (exact accepted language of index tokens, rejection of suffixes and negative indices).
-Not proved (observed by correspondence + oracle only): charts and `topology="parent"` parts (not modelled, tier B: the
-model answers `Outcome.unmodelled`, so no theorem below speaks about such files); memory safety of the C++ runtime.
+Not proved (observed by correspondence + oracle only): SurfaceMesh and Extrude charts (not modelled: the model answers
+`Outcome.unmodelled`, so no theorem below speaks about such files), chart-linked mesh parts in the round-trip theorems,
+the closed round-trip form for results with charts; memory safety of the C++ runtime.
 -/
 open FeatModel.C11
 
@@ -108,6 +110,16 @@ theorem C11.deduct_topology_spec (m : Mesh) (p : Part) (t : List (List (List Nat
         ∀ j v : Nat, ((m.topo.getD d []).getD c [])[j]? = some v →
           ∃ x : Nat, tup[j]? = some x ∧ x < (p.maps.getD 0 []).length ∧ (p.maps.getD 0 [])[x]? = some v :=
   S2.deductTopo_spec h
+
+/-- every index of a part topology of an accepted file - read from `<Topology>` blocks or DEDUCED from the parent for
+    `topology="parent"` (a part that does not contain all vertices of its entities is rejected: former finding K11) -
+    is a valid local vertex index of the part, and every tuple has the width of its shape -/
+theorem C11.parser_part_topology_in_range (text : Str) (sh : Shape) (dim : Nat) (n : Node)
+    (h : parseMeshFile text = .ok sh dim n) :
+    ∀ np ∈ n.parts, np.2.hasTopo = true → ∀ i, i < dim →
+      (np.2.topo.getD i []).length = np.2.sizes.getD (i + 1) 0 ∧
+      ∀ t ∈ np.2.topo.getD i [], t.length = nverts sh (i + 1) ∧ ∀ x ∈ t, x < np.2.sizes.getD 0 0 :=
+  fun np hnp => (parseMeshFile_parts_wf text sh dim n h np hnp).2.2.2.2.2.1
 
 /-- every chart link of an accepted file resolves in the atlas of the result -/
 theorem C11.parser_chart_links (text : Str) (sh : Shape) (dim : Nat) (n : Node)
@@ -227,11 +239,12 @@ theorem C11.ini_roundtrip_bytes (replace : Bool) (es : List (Str × Str)) (f : I
     (iniRead replace (iniWrite (IniRT.treeMap es f))).map iniWrite = some (iniWrite (IniRT.treeMap es f)) :=
   ini_roundtrip_tree_bytes replace es f hes hsorted hf
 
-/-- Charts (Circle in 2D, Sphere in 3D): a node with an atlas of well-formed charts (`ChartOk`: non-empty admissible
-    name, kind matching the dimension, radius ≥ the reader's threshold, non-degenerate circle domain; sorted by name)
-    is reproduced exactly - chart parameters are exact rationals printed as `p/q`, so this is an identity of the
-    printed decimal strings as well.  `_partial`: mesh parts that link to a chart (`chart="…"`), and the Bezier /
-    SurfaceMesh / Extrude chart kinds, are not covered. -/
+/-- Charts (Circle and Bezier in 2D, Sphere in 3D): a node with an atlas of well-formed charts (`ChartOk`: non-empty
+    admissible name, kind matching the dimension; circle/sphere: radius ≥ the reader's threshold, non-degenerate
+    circle domain; Bezier: `BezierOk` = at least 2 vertex points, first one without control points, 2 coordinates per
+    point, parameters absent or one per vertex point, orientation ±1; sorted by name) is reproduced exactly - chart
+    numbers are exact rationals printed as `p/q`, so this is an identity of the printed strings as well.
+    `_partial`: mesh parts that link to a chart (`chart="…"`) and the SurfaceMesh / Extrude chart kinds are not covered. -/
 theorem C11.parse_print_node_charts_partial (sh : Shape) (dim : Nat) (m : Mesh) (parts : List (Str × Part))
     (partitions : List Partition) (charts : List (Str × Chart))
     (hs : supported sh dim dim = true) (hwf : m.wf sh dim = true) (h64 : ∀ s ∈ m.sizes, s < 2 ^ 64)
@@ -250,6 +263,22 @@ theorem C11.parse_print_node_charts_partial (sh : Shape) (dim : Nat) (m : Mesh) 
 theorem C11.circle_bad_midpoint_rejected (line : Nat) (m : Markup) (ms : Str)
     (h2 : attrOf m "midpoint" = some ms) (h4 : (splitWs ms).length ≠ 2) : circleCreate line m = gErr line :=
   circleCreate_bad_midpoint line m ms h2 h4
+
+/-- Bezier: a point line with a wrong number of coordinates is a content error … -/
+theorem C11.bezier_wrong_coord_count_rejected (st : St) (line : Nat) (s : Str) (size read : Nat)
+    (acc : List (List (List Rat) × List Rat)) (rest : List Frame) (nc : Nat)
+    (hstack : st.stack = Frame.bezierPoints size read acc :: rest)
+    (hnc : readIndex ((splitWs s).headD []) = some nc)
+    (hlen : (splitWs s).length ≠ (nc + 1) * 2 + 1) : contentM st line s = cErr line :=
+  contentM_bezier_wrong_coord_count st line s size read acc rest nc hstack hnc hlen
+
+/-- … and a `<Points>` block with fewer lines than the declared size cannot be closed (grammar error) -/
+theorem C11.bezier_points_short_rejected (st : St) (line : Nat) (size read sz : Nat)
+    (acc : List (List (List Rat) × List Rat)) (cl : Bool) (o : Rat) (segs : List (List (List Rat) × List Rat))
+    (params : List Rat) (rest : List Frame)
+    (hstack : st.stack = Frame.bezierPoints size read acc :: Frame.bezier sz cl o segs params :: rest)
+    (h : read < size) : closeTop st line = gErr line :=
+  closeTop_bezier_points_short st line size read sz acc cl o segs params rest hstack h
 
 /-- a `<Chart>` without a chart element cannot be closed -/
 theorem C11.empty_chart_rejected (st : St) (line : Nat) (name : Str) (rest : List Frame)
